@@ -16,6 +16,9 @@ TraceDoubleOf(x) ==
   ELSE IF \E i \in 1..Len(Dbl) : Dbl[i].x = x THEN Dbl[CHOOSE i \in 1..Len(Dbl) : Dbl[i].x = x].y
   ELSE [t |-> "nodouble"]
 
+\* is the decimal x exactly a double?  integers below 10^15 are; otherwise the harness's table says
+ExactDouble(x) == (IsIntegral(x) /\ Magnitude(x) <= 15) \/ (\E i \in 1..Len(Dbl) : Dbl[i].x = x /\ Dbl[i].ex)
+
 Flag(kind, case, what) == PrintT(<<kind, case, what>>)
 
 \* rows of an output: every row is followed by the separator
